@@ -57,6 +57,11 @@ def recursive_rerun(ctx, rule):
 
 def run(ctx):
     _run(ctx)
+    r8 = ctx.rule('R8', 'a re-run task keeps the record of what triggered '
+                  'it: it is continued with the data of the task that '
+                  'started it (shared with C05.R9)', 'PAIR (save/restore)')
+    from mstatic.rules import shared as _shr
+    _shr.rerun_keeps_triggered_by(ctx, r8)
     from mstatic.rules import c06 as _c06
     r7 = ctx.rule('R7', 'the reset / skip / env choices of a rerun request '
                   'reach the engine as the client sent them (RPC server '
